@@ -35,7 +35,6 @@
 (define-fun encCmd ((v String)) String (shd (strSplit v ":")))
 (define-fun encN ((v String)) Int (sllen (strSplit v ":")))
 (define-fun encArg ((v String)) String (slnth (strSplit v ":") 1))
-(declare-fun fmtByName (String) Int)        ; GetFormat(name): the codec record (0 = unknown format)
 (declare-fun encStrF (Val String) Val)
 (declare-fun encStrE (Val String) Bool)
 (define-funs-rec (
